@@ -435,7 +435,7 @@ def main():
         if "seed" in cc:
             cases.append((cc["seed"], cc.get("length", 25)))
     rng = scen.Rng(args["seed"])
-    n = (300 if args["tier"] == "thorough" else 24) * args["budget"]
+    n = (300 if args["tier"] == "thorough" else 40) * args["budget"]
     for _ in range(n):
         cases.append((rng.next(), rng.range(10, 30) if args["tier"] == "quick" else rng.range(15, 80)))
     with ThreadPoolExecutor(max_workers=12) as ex:
